@@ -8,7 +8,7 @@ from vlib.core import Outcome, line
 
 DTYPES = ['bool', 'int8', 'int32', 'int64', 'uint8', 'float16', 'float32', 'float64']
 SHAPES = [[], [3], [2, 0], [2, 2]]
-PRE = ['cast', 'affine', 'addfeat', 'dropfeat']
+PRE = ['cast', 'affine', 'addfeat', 'dropfeat', 'inplace_rename', 'inplace_add']
 
 
 def make_raw(N, feats):
@@ -30,6 +30,19 @@ def pre_fn(name):
     return lambda x: {**x, 'sq': x['id'].astype(np.float32) ** 2}
   if name == 'dropfeat':
     return lambda x: {k: v for k, v in x.items() if k == 'id' or not k.startswith('f0')}
+  if name == 'inplace_rename':
+    # updates the dict it is given in place (BatchPreprocessor documents that it guards against this)
+    def f(x):
+      if 'id2' not in x:
+        x['id2'] = x['id'] + 0
+      return x
+    return f
+  if name == 'inplace_add':
+    def f(x):
+      x['neg'] = -x['id'].astype(np.int64)
+      x.pop('f1', None)
+      return x
+    return f
   raise ValueError(name)
 
 
@@ -142,6 +155,21 @@ class C03(core.Property):
       rest = list(it1)
       if not same(whole, ref) or not same(([first] if first is not None else []) + rest, ref):
         problems.append(f'a pass over a {name} view started while another iterator is suspended disturbs one of them')
+    # a pass that is abandoned early (peek at the first batch, break, consumer exception) must not
+    # change what a later pass over the same view yields
+    fresh = {'batch': lambda: ds.batch(batch_size=bs, drop_remainder=drop),
+             'padded_batch': lambda: ds.padded_batch(batch_size=bs, num_batch_size_buckets=B)}
+    for name, ref in (('batch', plain), ('padded_batch', padded)):
+      for k_stop in (1, 2):
+        # on a FRESH view object (its very first pass is the abandoned one) and on the used one
+        for v in (fresh[name](), view if name == 'batch' else pview):
+          for j, _ in enumerate(v):
+            if j + 1 >= k_stop:
+              break
+          if not same(list(v), ref):
+            problems.append(f'a pass over a {name} view after a pass abandoned in batch {k_stop} differs from a '
+                            f'complete fresh pass')
+            break
     if not same(plain, plain_h) or not same(padded, padded_h):
       problems.append('hparams-object form differs from kwargs form')
     if any(not np.array_equal(raw[k], snap[k]) for k in snap) or set(raw) != set(snap):
